@@ -129,7 +129,7 @@ Call(f, args, tab) ==
              src == IF Len(rs) = 0 THEN RootSrc ELSE rs[1].v IN
          FOk(<<IntV(n, src)>>)
     [] f = "join" ->
-         IF Len(args[2]) = 0 THEN FErr("panic:function-argument-without-values")
+         IF Len(args[2]) = 0 THEN FErr("function-argument-without-values")
          ELSE LET d == args[2][1] IN
          IF IsUnres(d) \/ d.v.t \notin {"str", "chr"} THEN FErr("join-delimiter")
          ELSE LET delim == IF d.v.t = "str" THEN d.v.v ELSE <<d.v.v>>
@@ -147,7 +147,7 @@ Call(f, args, tab) ==
                                          ELSE IF ~KnownCase(v.v) THEN EErr("unknown")
                                          ELSE Some(StrV(MapStr(v.v, Lower), v)))
     [] f = "substring" ->
-         IF Len(args[2]) = 0 \/ Len(args[3]) = 0 THEN FErr("panic:function-argument-without-values")
+         IF Len(args[2]) = 0 \/ Len(args[3]) = 0 THEN FErr("function-argument-without-values")
          ELSE
            LET off(r) == IF IsUnres(r) THEN -1
                          ELSE IF r.v.t = "int" THEN AsU16Int(r.v.v)
@@ -220,7 +220,7 @@ Call(f, args, tab) ==
                 ELSE IF r.e.ok THEN Some(WithPathsO(r.e.v, v.p, "l"))
                 ELSE IF f = "json_parse" THEN EErr("json_parse") ELSE None)
     [] f = "regex_replace" ->
-         IF Len(args[2]) = 0 \/ Len(args[3]) = 0 THEN FErr("panic:function-argument-without-values")
+         IF Len(args[2]) = 0 \/ Len(args[3]) = 0 THEN FErr("function-argument-without-values")
          ELSE LET a2 == args[2][1]  a3 == args[3][1] IN
          IF IsUnres(a2) \/ a2.v.t # "str" \/ IsUnres(a3) \/ a3.v.t # "str" THEN FErr("regex_replace-argument")
          ELSE ElementWise(args[1], LAMBDA v :
